@@ -312,12 +312,16 @@ theorem stepSync_prog {s s' par attr} {so : SyncObj} (h : stepSync s par attr so
     refine ⟨?_, ?_, ?_⟩ <;> cases pid <;>
       simp [State.T, State.Q, State.D, State.pidN, SyncObj.mass, SyncObj.pidN, sumBy_append, sumBy, Work.mass, Work.pidN,
         syncMass_eq, kidsMass_eq, syncPidN_eq, kidsPidN_eq, optN] <;> omega
-  · cases h
-    have hm := props_mass keys set ext
-    have hp := props_pidN (fun _ => 1) keys set ext
-    refine ⟨?_, ?_, ?_⟩ <;> cases sync <;>
-      simp [State.T, State.Q, State.D, State.pidN, SyncObj.mass, SyncObj.pidN, sumBy, Work.mass, Work.pidN,
-        itemsMass, itemsPidN, Item.mass, Item.pidN, syncMass, syncPidN] <;> omega
+  · split at h
+    · cases h
+      refine ⟨?_, ?_, ?_⟩ <;> simp [defer_T, defer_Q, defer_D, Action.mass, Piece.mass, SyncObj.mass, Action.pidN, Piece.pidN, SyncObj.pidN] <;> omega
+    · cases h
+    · cases h
+      have hm := props_mass keys set ext
+      have hp := props_pidN (fun _ => 1) keys set ext
+      refine ⟨?_, ?_, ?_⟩ <;> cases sync <;>
+        simp [State.T, State.Q, State.D, State.pidN, SyncObj.mass, SyncObj.pidN, sumBy, Work.mass, Work.pidN,
+          itemsMass, itemsPidN, Item.mass, Item.pidN, syncMass, syncPidN] <;> omega
 
 theorem stepResync_prog {dflt s s' par attr nid2 ty keys sync}
     (h : stepResync dflt s par attr nid2 ty keys sync = .ok s') :
@@ -545,7 +549,11 @@ theorem stepSet_ps {s s' par attr} {v : SetVal} (h : stepSet s par attr v = .ok 
 theorem stepSync_ps {s s' par attr} {so : SyncObj} (h : stepSync s par attr so = .ok s') : PsStep s s' := by
   obtain ⟨nid, nid2, ty, keys, pid, set, ext, sync⟩ := so
   simp only [stepSync] at h
-  split at h <;> first | (cases h; left; rfl) | cases h
+  split at h
+  · cases h; left; rfl
+  · cases h
+  · cases h; left; rfl
+  · split at h <;> first | (cases h; left; rfl) | cases h
 
 theorem stepResync_ps {dflt s s' par attr nid2 ty keys sync}
     (h : stepResync dflt s par attr nid2 ty keys sync = .ok s') : PsStep s s' := by
